@@ -24,7 +24,14 @@ RULE = ('quoting: every string over {a, space, tab, double quote, backslash} up 
         'several copy steps per source; a renamed copy changing its source between runs) with dependencies, configured with '
         '--backend=msbuild and regenerated after edits; distinct GUIDs and project files, project file carries its GUID and '
         'its own Copy task, .bfg_uuid = one entry per project):the number of explicit defaults of a run is dealt out in turn over 0..3, given to one default() call or to '
-        'one call each; a case = one run, distinct by its script.')
+        'one call each; a case = one run, distinct by its script. MSBuild text: the same words (corpus, sweep, weighted classes) plus '
+        'the shapes that look already quoted or escaped (a quote at the start and/or the end, only quotes, backslash runs before a '
+        'quote, percent signs, blanks only), as plain strings, strings glued to shell literals, and paths, alone through '
+        'msbuild textify(quoted=True) and in lists of 0..5 through the real CommandProject (Exec Command=) and VcxProject '
+        '(<AdditionalOptions> of project-wide / per-file ClCompile, ResourceCompile, Link, Lib), read back from the written XML '
+        'with an XML parser, the %% doubling undone, split by the C runtime rules (three variants): word for word; and real '
+        'configures with --backend=msbuild of command / build_step / executable / shared_library steps with such words as '
+        'command words, compile_options, link_options and in CFLAGS / CPPFLAGS / CXXFLAGS / LDFLAGS; distinct by exact text.')
 TRUSTED = ('R model Shell/Msvcrt.v of the documented Microsoft C runtime argv rules (no Windows here): cross-checked each run '
            'against CPython subprocess.list2cmdline (independent writer for the same rules) and against a line-by-line Python '
            'transliteration of the CRT parse_cmdline loop (harness/c20.py crt_parse) in the three double-double-quote variants',
@@ -32,7 +39,12 @@ TRUSTED = ('R model Shell/Msvcrt.v of the documented Microsoft C runtime argv ru
            'uuid.uuid4 is modelled as a fresh-id oracle (injective, disjoint from stored ids); JSON and UUID hex round trips are '
            'exercised through real files but not modelled',
            'MSBuild itself (reading the .sln) is not available; the .sln text is parsed back by the harness; for the real '
-           'configure with --backend=msbuild the variable MSBUILD names harness/stubs_msbuild/msbuild, which only answers /version')
+           'configure with --backend=msbuild the variable MSBUILD names harness/stubs_msbuild/msbuild, which only answers /version',
+           'MSBuild text: Exec Command= and <AdditionalOptions> are taken to reach a program as Windows command-line text after '
+           'the XML escaping (undone by lxml) and with %% standing for one % (what msbuild textify writes for a percent sign); '
+           'MSBuild $(...) / %(...) expansion and cmd.exe metacharacters are not modelled; words with characters XML 1.0 cannot '
+           'hold are left out of the project-file places; for the real configure cl / link / lib are stand-ins that print the '
+           'MSVC banner')
 EXPLANATION = ''
 
 ALPHA = ['a', ' ', '\t', '"', '\\']
@@ -507,8 +519,348 @@ def stage_oracle_quote(rep, rng, strings, lists, n):
     return bad + jbad
 
 
+# ----------------------------------------------------------------------------- MSBuild text: every place textify(quoted=True) is reached
+# Exec Command= of command()/build_step() projects and <AdditionalOptions> of .vcxproj files (project-wide and per-file
+# ClCompile, ResourceCompile, Link, Lib) are Windows command-line text: the words written there must come back, word for
+# word, under the C runtime rules after the XML escaping (undone by an XML parser) and the %% doubling are undone.
+MS_PLACES = ['exec-command', 'cl-common', 'cl-file', 'rc-file', 'link', 'lib']
+MS_SUFFIX = ' %(AdditionalOptions)'
+MS_LIT = 'ABCxyz019=:,./-+_'
+MS_PATHCHARS = 'ab1_ %&'
+
+
+def xml_ok(s):
+    """characters an XML 1.0 document can hold (lxml refuses the others): such words cannot be written at all"""
+    return all(c == '\t' or (' ' <= c <= '\ud7ff') or ('\ue000' <= c <= '\ufffd') or c >= '\U00010000' for c in s)
+
+
+def adv_word(rng, rep=None):
+    """The word generator of the windows.join round trip (rand_string over the in-domain classes), dressed in the shapes
+    that look 'already quoted' or 'already escaped': a quote at the start and/or the end, only quotes, backslash runs in
+    front of a quote, percent signs, blanks only."""
+    s = rand_string(rng, rep, CLASSES_DOM)
+    r = rng.random()
+    if r < 0.2:
+        s = '"' + s + '"'
+    elif r < 0.28:
+        s = '"' + s
+    elif r < 0.36:
+        s = s + '"'
+    elif r < 0.42:
+        s = '"' * rng.randint(1, 4)
+    elif r < 0.5:
+        s = '\\' * rng.randint(0, 3) + '"' + s + '\\' * rng.randint(0, 3) + '"'
+    elif r < 0.58:
+        i = rng.randint(0, len(s))
+        s = s[:i] + '%' * rng.randint(1, 3) + s[i:]
+    elif r < 0.62:
+        s = rng.choice(' \t') * rng.randint(1, 3)
+    elif r < 0.68:
+        s = '"' + s.replace('"', '') + '"' + rng.choice(['', ' ', 'x', '"b"'])
+    return s
+
+
+def ms_spec(rng, words):
+    """A word of an option list / command: mostly a plain string, sometimes a string glued to shell literals (a jbos,
+    every string piece quoted on its own) or a path.  -> JSON-able spec"""
+    r = rng.random()
+    w = rng.choice(words)
+    if r < 0.8:
+        return ['str', w]
+    if r < 0.93:
+        pieces = []
+        for _ in range(rng.randint(2, 4)):
+            if rng.random() < 0.5:
+                pieces.append(['lit', ''.join(rng.choice(MS_LIT) for _c in range(rng.randint(1, 4)))])
+            else:
+                pieces.append(['str', rng.choice(words)])
+        return ['jbos', pieces]
+    comps = []
+    for _ in range(rng.randint(1, 3)):
+        c = ''.join(rng.choice(MS_PATHCHARS) for _c in range(rng.randint(1, 5)))
+        comps.append(c if c.strip(' ') == c and c else 'd' + c.strip(' ') + 'e')
+    return ['path', rng.choice(['srcdir', 'absolute']), comps]
+
+
+def ms_build(spec):
+    """spec -> (the object given to bfg9000, the argument text every reader must deliver)"""
+    from bfg9000.safe_str import jbos, shell_literal
+    from bfg9000.path import Path, Root
+    if spec[0] == 'str':
+        return spec[1], spec[1]
+    if spec[0] == 'jbos':
+        return (jbos(*[shell_literal(t) if k == 'lit' else t for k, t in spec[1]]), ''.join(t for _, t in spec[1]))
+    if spec[1] == 'srcdir':
+        return Path('/'.join(spec[2]), Root.srcdir), '$(SourceDir)' + '\\'.join(spec[2])
+    return Path('/' + '/'.join(spec[2]), Root.absolute), '\\' + '\\'.join(spec[2])
+
+
+def ms_spec_ok(spec):
+    _, want = ms_build(spec)
+    return in_domain(want) and xml_ok(want)
+
+
+def ms_render(lists):
+    """lists: {place: [spec]} -> {place: the text the REAL msbuild syntax classes write there}, read back from the XML they
+    serialise (CommandProject.convert_command / task / write, VcxProject.write)"""
+    import io
+    import types
+    import uuid
+    from lxml import etree
+    from bfg9000.backends.msbuild import syntax as ms
+    from bfg9000.file_types import SourceFile, Executable, StaticLibrary
+    from bfg9000.path import Path, Root
+    env = types.SimpleNamespace(getvar=lambda k, dflt=None: dflt, srcdir=Path('/src dir', Root.absolute))
+    objs = {k: [ms_build(s)[0] for s in v] for k, v in lists.items()}
+    out = {}
+    if 'exec-command' in lists:
+        p = ms.CommandProject(env, 'step', commands=[ms.CommandProject.task(
+            'Exec', Command=ms.CommandProject.convert_command(objs['exec-command']), WorkingDirectory='$(OutDir)')])
+        p.uuid = uuid.UUID(int=2)
+        b = io.BytesIO()
+        p.write(b)
+        out['exec-command'] = etree.fromstring(b.getvalue()).find('.//{*}Exec').get('Command')
+    if any(k != 'exec-command' for k in lists):
+        lib = 'lib' in lists
+        files = [{'name': SourceFile(Path('main.c', Root.srcdir), 'c'), 'options': {'extra': objs.get('cl-file')}},
+                 {'name': SourceFile(Path('res.rc', Root.srcdir), 'rc'), 'options': {'extra': objs.get('rc-file')}}]
+        p = ms.VcxProject(env, 'prog', mode='StaticLibrary' if lib else 'Application',
+                          output_file=(StaticLibrary(Path('prog.lib'), 'coff', 'c') if lib else
+                                       Executable(Path('prog.exe'), 'coff', 'c')),
+                          files=files, compile_options={'extra': objs.get('cl-common')},
+                          link_options={'extra': objs.get('lib' if lib else 'link')})
+        p.uuid = uuid.UUID(int=1)
+        b = io.BytesIO()
+        p.write(b)
+        root = etree.fromstring(b.getvalue())
+        where = {'cl-common': './{*}ItemDefinitionGroup/{*}ClCompile', 'link': './{*}ItemDefinitionGroup/{*}Link',
+                 'lib': './{*}ItemDefinitionGroup/{*}Lib', 'cl-file': './{*}ItemGroup/{*}ClCompile',
+                 'rc-file': './{*}ItemGroup/{*}ResourceCompile'}
+        for k in lists:
+            if k == 'exec-command':
+                continue
+            e = root.find(where[k] + '/{*}AdditionalOptions')
+            out[k] = None if e is None else (e.text or '')
+    return out
+
+
+def ms_read(place, text, n_words):
+    """the written text -> {reader: words}; AdditionalOptions end in the inherited %(AdditionalOptions)"""
+    if place != 'exec-command':
+        if text is None:
+            return {'xml': [] if n_words == 0 else None}
+        if not text.endswith(MS_SUFFIX.strip() if n_words == 0 else MS_SUFFIX):
+            return {'xml': None}
+        text = text[:-len(MS_SUFFIX)] if n_words else ''
+    line = text.replace('%%', '%')
+    return {'crt%d' % dd: crt_parse(line, dd) for dd in (0, 1, 2)}
+
+
+def ms_check(lists):
+    """-> [(place, specs, want, text, reader, got)] for every place whose words do not come back"""
+    bad = []
+    texts = ms_render(lists)
+    for place, specs in lists.items():
+        want = [ms_build(s)[1] for s in specs]
+        for reader, got in ms_read(place, texts[place], len(specs)).items():
+            if got != want:
+                bad.append((place, specs, want, texts[place], reader, got))
+                break
+    return bad
+
+
+def ms_fail(rep, place, specs, want, text, reader, got, via='the real msbuild syntax classes'):
+    rep.fail('msbuild %s: the words %r are written as %r (%s), which %s reads back as %r' % (
+        place, want, text, via, reader, got),
+        {'msbuild_words': {place: specs}, 'want': want, 'written': text, 'reader': reader, 'delivered': got,
+         'replay_hint': 'from bfg9000.backends.msbuild.syntax import textify; " ".join(textify(w, quoted=True) for w in WORDS)'},
+        classes=())
+
+
+def stage_msbuild_text(rep, rng, strings, n, budget=1):
+    """(1) textify(word, quoted=True) on its own: one word in, the C runtime rules give that one word back; tied to the
+    model of windows quote with escape_percent (W:msbuild.textify), textify(word) unquoted is the word.  (2) word lists
+    through the real CommandProject / VcxProject classes in every place that is written with quoted=True."""
+    from bfg9000.backends.msbuild import syntax as ms
+    us = us_table()
+    words = list(dict.fromkeys(CORPUS + strings + [adv_word(rng, rep) for _ in range(n * budget)]))
+    calls, impl = [], []
+    bad = 0
+    tie_plain = 0
+    for w in words:
+        t = ms.textify(w, quoted=True)
+        calls.append(('win.quote', [us, True, w])); impl.append(t)
+        if ms.textify(w) != w or ms.textify(w, quoted=False) != w:
+            tie_plain += 1
+        if not in_domain(w):
+            continue
+        rep.case('mt:' + w, nontrivial(w))
+        if len(w) >= 2 and w[0] == '"' == w[-1]:
+            rep.count('msbuild:word-in-quotes')
+        if '%' in w:
+            rep.count('msbuild:word-with-percent')
+        line = t.replace('%%', '%')
+        for dd in (0, 1, 2):
+            got = crt_parse(line, dd)
+            if got != [w]:
+                bad += 1
+                if bad <= 4:
+                    rep.fail('msbuild textify(%r, quoted=True) gives %r, which the C runtime rules (variant %d) read as %r' % (
+                        w, t, dd, got), {'msbuild_words': {'textify': [['str', w]]}, 'want': [w], 'written': t,
+                                         'reader': 'crt%d' % dd, 'delivered': got}, classes=())
+                break
+    dis = common.compare_model(rep, 'W:msbuild.textify', calls, impl, dec, vm_limit=60)
+    if tie_plain:
+        dis = dis + [(0, ('msbuild.textify-unquoted', ['a string is written as it is']), tie_plain, 0)]
+    # through the real classes: every word of the pool in every place, in lists of 1..5 words
+    pool = [w for w in words if in_domain(w) and xml_ok(w)]
+    lbad = nl = 0
+    for place in MS_PLACES:
+        order = list(pool)
+        rng.shuffle(order)
+        i = 0
+        pbad = 0
+        while i < len(order):
+            k = rng.randint(1, 5)
+            chunk = order[i:i + k]
+            i += k
+            specs = [['str', w] if rng.random() < 0.85 else ms_spec(rng, chunk) for w in chunk]
+            specs = [s for s in specs if ms_spec_ok(s)]
+            if rng.random() < 0.02:
+                specs = []
+            nl += 1
+            rep.count('msbuild:' + place)
+            for s in specs:
+                if s[0] != 'str':
+                    rep.count('msbuild:word-' + s[0])
+            for f in ms_check({place: specs}):
+                lbad += 1
+                pbad += 1
+                if pbad > 2:
+                    continue
+                # the shortest failing list: a single word of it, if one fails alone
+                for s in specs:
+                    one = ms_check({place: [s]})
+                    if one:
+                        f = one[0]
+                        break
+                ms_fail(rep, *f)
+    rep.stage('oracle:msbuild textify/Exec/AdditionalOptions -> crt', words=len(words), single_word_failures=bad,
+              lists_through_real_classes=nl, list_failures=lbad)
+    return dis, bad + lbad
+
+
+MS_SYS_TOOLS = ('cl', 'link', 'lib')
+
+
+def ms_sys_word(rng, pool):
+    """a word for the real configure: not empty, and not read as an option bfg9000 itself understands (/I /D /W... are
+    moved to other elements): a leading / or - is kept only behind an option name bfg9000 passes through"""
+    w = rng.choice(pool)
+    if w == '':
+        w = '""'
+    if w[0] in '/-':
+        w = rng.choice(['/FI', '/Zc:', '"', 'a', '%']) + w
+    return w
+
+
+def gen_ms_sys(rng, pool):
+    def words(k=6):
+        return [ms_sys_word(rng, pool) for _ in range(rng.randint(1, k))]
+    return {'command': words(8), 'build_step': words(8), 'CFLAGS': words(4), 'CPPFLAGS': words(4), 'CXXFLAGS': words(4),
+            'LDFLAGS': words(4), 'c_compile': words(), 'c_link': words(), 'cxx_compile': words(), 'cxx_link': words()}
+
+
+def ms_sys_script(c):
+    return ("project('sol', '1.0')\n"
+            "command('c0', cmd=%r)\n"
+            "build_step('out.txt', cmd=%r)\n"
+            "executable('prog', files=['main.c'], compile_options=%r, link_options=%r)\n"
+            "shared_library('sh', files=['s.cpp'], compile_options=%r, link_options=%r)\n" % (
+                c['command'], c['build_step'], c['c_compile'], c['c_link'], c['cxx_compile'], c['cxx_link']))
+
+
+def ms_sys_case(c):
+    """One real `bfg9000 configure-into --backend=msbuild` (CC=CXX=cl: stand-ins that only print the MSVC banner) of a
+    script with command / build_step steps, a C program and a C++ library, flag variables in the environment (split by
+    the host shell rules at configure time).  -> (error or None, [(place, want, text, reader, got)])"""
+    import shlex
+    from lxml import etree
+    from . import project
+    d = common.scratch('c20ms')
+    try:
+        bindir, src, build = os.path.join(d, 'bin'), os.path.join(d, 'src'), os.path.join(d, 'build')
+        os.makedirs(bindir)
+        for t in MS_SYS_TOOLS:
+            with open(os.path.join(bindir, t), 'w') as f:
+                f.write('#!/bin/sh\necho "Microsoft (R) C/C++ Optimizing Compiler Version 19.29.30133 for x86"\n')
+            os.chmod(os.path.join(bindir, t), 0o755)
+        project.write_tree(src, {'build.bfg': ms_sys_script(c), 'main.c': 'int main(void) { return 0; }\n', 's.cpp': '\n'})
+        env = {'MSBUILD': MSBUILD_STUB, 'CC': 'cl', 'CXX': 'cl', 'PATH': bindir + ':' + common.impl_env()['PATH']}
+        for k in ('CFLAGS', 'CPPFLAGS', 'CXXFLAGS', 'LDFLAGS'):
+            env[k] = ' '.join(shlex.quote(w) for w in c[k])
+        rc, out = project.configure(src, build, backend='msbuild', extra_env=env)
+        if rc != 0:
+            return 'bfg9000 configure exits %d: %s' % (rc, out[-600:]), []
+
+        def root(rel):
+            return etree.parse(os.path.join(build, rel)).getroot()
+        obs = []
+        for step, key in (('c0/c0.proj', 'command'), ('out.txt/out.txt.proj', 'build_step')):
+            obs.append(('Exec Command= of ' + step, 'exec-command', c[key], root(step).find('.//{*}Exec').get('Command')))
+        for proj, lang, flags in (('prog/prog.vcxproj', 'c', 'CFLAGS'), ('libsh/libsh.vcxproj', 'cxx', 'CXXFLAGS')):
+            r = root(proj)
+
+            def text(p):
+                e = r.find(p + '/{*}AdditionalOptions')
+                return None if e is None else (e.text or '')
+            obs.append(('ClCompile AdditionalOptions of ' + proj, 'cl-common', c['CPPFLAGS'] + c[flags],
+                        text('./{*}ItemDefinitionGroup/{*}ClCompile')))
+            obs.append(('per-file ClCompile AdditionalOptions of ' + proj, 'cl-file', c[lang + '_compile'],
+                        text('./{*}ItemGroup/{*}ClCompile')))
+            obs.append(('Link AdditionalOptions of ' + proj, 'link', c['LDFLAGS'] + c[lang + '_link'],
+                        text('./{*}ItemDefinitionGroup/{*}Link')))
+        bad = []
+        for label, place, want, t in obs:
+            for reader, got in ms_read(place, t, len(want)).items():
+                if got != want:
+                    bad.append((label, want, t, reader, got))
+                    break
+        return None, bad
+    finally:
+        shutil.rmtree(d, ignore_errors=True)
+
+
+def stage_msbuild_sys(rep, rng, strings, n_cases):
+    import concurrent.futures
+    pool = [w for w in CORPUS + strings + [adv_word(rng) for _ in range(300)] if in_domain(w) and xml_ok(w)]
+    # every other configure draws mostly from the words whose ends matter to a quoting rule: a quote or a backslash at
+    # the start or the end, a percent sign or a blank anywhere
+    edgy = [w for w in pool if w[:1] in ('"', '\\') or w[-1:] in ('"', '\\') or '%' in w or ' ' in w or '\t' in w]
+    cases = [gen_ms_sys(rng, pool if i % 2 == 0 else edgy + rng.sample(pool, 40)) for i in range(n_cases)]
+    with concurrent.futures.ThreadPoolExecutor(max_workers=8) as ex:
+        outs = list(ex.map(ms_sys_case, cases))
+    bad = 0
+    for c, (err, fails) in zip(cases, outs):
+        rep.case('msys:%r' % (c,), True)
+        rep.count('msbuild-sys:words', sum(len(v) for v in c.values()))
+        if err:
+            bad += 1
+            rep.fail('msbuild backend, real configure of command / build_step / executable / shared_library steps: ' + err,
+                     {'msbuild_sys': c, 'script': ms_sys_script(c)}, classes=())
+            continue
+        for label, want, t, reader, got in fails[:2]:
+            bad += 1
+            if bad <= 6:
+                rep.fail('msbuild backend, real configure: %s: the words %r are written as %r, which %s reads back as %r' % (
+                    label, want, t, reader, got), {'msbuild_sys': c, 'script': ms_sys_script(c), 'place': label, 'want': want,
+                                                   'written': t, 'reader': reader, 'delivered': got}, classes=())
+    rep.stage('oracle:msbuild configure -> Exec/AdditionalOptions -> crt', configures=n_cases, failures=bad)
+    return bad
+
+
 # ----------------------------------------------------------------------------- UuidMap / Solution
-NAME_POOL = ['prog', 'libfoo', 'copy_file_tasks/data.txt', 'sub/dir/tool', 'my project', '\xe9日', 'all', 'test',
+NAME_POOL =['prog', 'libfoo', 'copy_file_tasks/data.txt', 'sub/dir/tool', 'my project', '\xe9日', 'all', 'test',
              'a', 'b', 'c', 'key', 'x.y', 'UPPER', 'a&b', '{guid}']
 SLN_PROJECT = re.compile(r'^Project\("\{([0-9A-F-]+)\}"\) = "(.*)", "(.*)", "\{([0-9A-F-]+)\}"$')
 SLN_DEP = re.compile(r'^\t\t\{([0-9A-F-]+)\} = \{([0-9A-F-]+)\}$')
@@ -1190,6 +1542,14 @@ def run(rep):
     sdis, _ = stage_split_vs_crt(rep, rng, n)
     dis += sdis
     found = stage_oracle_quote(rep, rng, strings, lists, n * (10 if dis else 1))
+    # (a stream of its own: the stages after these draw what they drew before these existed)
+    mrng = random.Random(rep.seed * 7 + 20)
+    mdis, mbad = stage_msbuild_text(rep, mrng, strings, n)
+    if mdis and not mbad:
+        _, mbad = stage_msbuild_text(rep, mrng, strings, n, budget=10)       # search with a 10x budget
+    dis += mdis
+    found += mbad
+    found += stage_msbuild_sys(rep, mrng, strings, 16 if thorough else 4)
     if dis and not rep.n_with_input:
         i, call, iv, mv = dis[0]
         rep.fail('W:%s - model and implementation disagree (%d cases), e.g. %r: impl %r, model %r' % (
@@ -1250,6 +1610,40 @@ def replay(rep, path):
                     classes=())
                 return
         print('replayed line no longer fails')
+        return
+    if 'msbuild_words' in r:
+        from bfg9000.backends.msbuild import syntax as ms
+        n = 0
+        for place, specs in r['msbuild_words'].items():
+            if place == 'textify':
+                w = specs[0][1]
+                t = ms.textify(w, quoted=True)
+                for dd in (0, 1, 2):
+                    got = crt_parse(t.replace('%%', '%'), dd)
+                    if got != [w]:
+                        n += 1
+                        rep.fail('msbuild textify(%r, quoted=True) gives %r, which the C runtime rules (variant %d) read as %r' % (
+                            w, t, dd, got), {'msbuild_words': {'textify': [['str', w]]}, 'want': [w], 'written': t,
+                                             'reader': 'crt%d' % dd, 'delivered': got}, classes=())
+                        break
+                continue
+            for f in ms_check({place: specs}):
+                n += 1
+                ms_fail(rep, *f)
+        if not n:
+            print('replayed words no longer fail')
+        return
+    if 'msbuild_sys' in r:
+        err, fails = ms_sys_case(r['msbuild_sys'])
+        if err:
+            rep.fail('msbuild backend, real configure of command / build_step / executable / shared_library steps: ' + err,
+                     {'msbuild_sys': r['msbuild_sys']}, classes=())
+        for label, want, t, reader, got in fails[:2]:
+            rep.fail('msbuild backend, real configure: %s: the words %r are written as %r, which %s reads back as %r' % (
+                label, want, t, reader, got), {'msbuild_sys': r['msbuild_sys'], 'place': label, 'want': want, 'written': t,
+                                               'reader': reader, 'delivered': got}, classes=())
+        if not err and not fails:
+            print('replayed configure no longer fails')
         return
     if 'args' in r and 'written' in r:
         from bfg9000.shell import windows as wshell
